@@ -243,7 +243,7 @@ pub fn run(ctx: &Ctx) -> Report {
         l.distinct_enumerated += 27 * 5 + 3;
         l.sample(|| Json::obj().set("table", "the 27 records of right/UTC (tzdata 2025b)").set("T_values", 27 * 5 + 3));
     });
-    run_cases(ctx, &mut rep, 2, ctx.n(5000, 200_000), |l, rng, i| {
+    run_cases(ctx, &mut rep, 2, ctx.n(30_000, 600_000), |l, rng, i| {
         let mut t = gen_leaps(rng, true);
         if ctx.scale < 1.0 {
             t.0.truncate(3); // slices: short tables (every record costs ~60 interpreted calls)
